@@ -205,6 +205,7 @@ func CheckC03(e *fw.Env, l *Lab) {
 	e.Res.Notes["injection_sites_fired"] = fmt.Sprint(len(sitesSeen))
 	naturalFailures(e)
 	gasExhaustion(e)
+	statsLimitC03(e)
 }
 
 func siteOf(name string) string {
